@@ -421,7 +421,8 @@ class Gen:
     def native_histogram(self, f):
         r = self.rng
         for ls in self.distinct_labelsets(r.randrange(1, 3)):
-            f.groups.append([Sample('', ls, None, raw=r.choice(self.NH_VALUES))])
+            raw = r.choice(self.NH_VALUES) if r.random() < 0.3 else nh_struct(r)
+            f.groups.append([Sample('', ls, None, raw=raw)])
 
     def family(self, typ=None):
         r = self.rng
@@ -466,6 +467,97 @@ class Gen:
         return render(self.doc(**kw))
 
 
+# ---------------------------------------------------------------- native-histogram values
+NH_FIELDS = ['count', 'sum', 'schema', 'zero_threshold', 'zero_count']
+NH_LISTS = ['positive_spans', 'negative_spans', 'positive_deltas', 'negative_deltas']
+NH_INTS = ['0', '1', '4', '24', '100', '-4', '+5', '007', '12345678901234567890', '\u0663']
+NH_FLOATS = ['0', '0.001', '2.938735877055719e-39', '1e3', '-0.5', 'inf', 'nan', '.5', '5.', '7']
+
+
+def nh_list_body(rng, kind, n=None):
+    n = rng.randrange(1, 5) if n is None else n
+    if kind.endswith('spans'):
+        return ','.join('%d:%d' % (rng.randrange(0, 9), rng.randrange(0, 5)) for _ in range(n))
+    return ','.join(str(rng.choice([0, 1, 2, 3, -1, -3, 17])) for _ in range(n))
+
+
+def nh_struct(rng, lists=None):
+    """a well-formed native-histogram value {count:..,...}: the five fields in any order, any subset of the four lists"""
+    parts = []
+    for k in NH_FIELDS:
+        v = rng.choice(NH_FLOATS if k == 'zero_threshold' else NH_INTS)
+        parts.append('%s:%s%s' % (k, rng.choice(['', '', ' ', '  ']), v))
+    if lists is None:
+        lists = [k for k in NH_LISTS if rng.random() < 0.5]
+    for k in lists:
+        parts.append('%s:[%s]' % (k, nh_list_body(rng, k)))
+    if rng.random() < 0.4:
+        rng.shuffle(parts)
+    return '{' + ','.join(parts) + '}'
+
+
+# bodies put between the brackets of a list: well-formed ones and near misses of the two list patterns
+NH_BODIES = ['', '1', '-1', '1,2', '1,-2,3', ',', '1,', ',1', '1,,2', '[1]', '1,[2]', ' ', '1 ', ' 1', '1, 2', '+1', '1.5', '1e2',
+             '0:1', '0:1,2:3', '0:', ':1', '0', '0:1,', ',0:1', '0:1,,2:3', '0:1:2', '-0:1', '0:-1', '0: 1', '\u0663',
+             '\u0663:\u0661', '-0', '--1', '1,-', '-', 'a', '1a', '0:a', '\u00b2', ']', '[', '1]', '9' * 400]
+
+
+def nh_near_misses(rng, struct, limit=None):
+    """-> list of texts derived from a well-formed native-histogram value by ONE near-miss edit of its syntax"""
+    out = []
+    # list bodies: emptied, truncated, extra commas, nesting, brackets dropped, blanks
+    for m in re.finditer(r'([a-z_]+):\[([^\]]*)\]', struct):
+        key, body = m.group(1), m.group(2)
+        a, b = m.start(2), m.end(2)
+        elems = body.split(',')
+        cands = ['', ',' + body, body + ',', body.replace(',', ',,', 1) if ',' in body else body + ',,' + body,
+                 '[' + body + ']', ' ' + body, body + ' ', body.replace(',', ', '), body.replace(':', ': ', 1)]
+        cands += [','.join(elems[:k]) for k in range(1, len(elems))]
+        cands += [rng.choice(NH_BODIES)]
+        for c in cands:
+            out.append(struct[:a] + c + struct[b:])
+        out.append(struct[:a - 1] + body + struct[b:])            # no opening bracket
+        out.append(struct[:b] + struct[b + 1:])                    # no closing bracket
+        out.append(struct[:m.start()] + key + ': [' + body + ']' + struct[m.end():])      # blank after the colon
+        out.append(struct[:m.start()] + key + ' :[' + body + ']' + struct[m.end():])
+        out.append(struct[:m.start()] + key + '[' + body + ']' + struct[m.end():])        # no colon
+        out.append(struct[:m.start()] + key[:-1] + ':[' + body + ']' + struct[m.end():])   # near-miss key
+        out.append(struct[:m.start()] + 'x' + key + ':[' + body + ']' + struct[m.end():])
+        out.append(struct[:m.start()] + key.upper() + ':[' + body + ']' + struct[m.end():])
+        out.append(struct[:m.end()] + ',' + m.group(0) + struct[m.end():])                 # the list twice
+        out.append(struct[:m.start()] + struct[m.end():].lstrip(','))                     # the list removed
+    # a list added with a near-miss body
+    for key in NH_LISTS:
+        if key + ':' not in struct:
+            out.append(struct[:-1] + ',%s:[%s]}' % (key, rng.choice(NH_BODIES)))
+    # fields: removed, emptied, repeated, odd values, other separators
+    for k in NH_FIELDS:
+        m = re.search(r'%s:\s*([^,}]*)' % k, struct)
+        if not m:
+            continue
+        out.append(struct[:m.start()] + struct[m.end():].lstrip(','))
+        for v in ('', ' ', '1.0', '1e3', '0x10', '1_0', 'NaN', 'abc', '-', '1 2', '"1"', '{1}', '[1]', '9' * 400):
+            out.append(struct[:m.start(1)] + v + struct[m.end(1):])
+        out.append(struct[:m.end()] + ',' + m.group(0) + struct[m.end():])
+        out.append(struct[:m.start()] + k + ' :' + m.group(1) + struct[m.end():])
+        out.append(struct[:m.start()] + k + '=' + m.group(1) + struct[m.end():])
+    # braces and separators
+    out += [struct[:-1], struct[1:], '{' + struct, struct + '}', struct + ' 1', struct + ' # {a="b"} 1', struct[:-1] + ',}',
+            '{,' + struct[1:], struct.replace(',', ';'), struct.replace(',', ' '), struct.replace(',', ', '),
+            struct.replace(':', ' : '), struct.replace('{', '{ ', 1), '{}', '{ }', '{:}', '{count}', '{count:}']
+    out = list(dict.fromkeys(out))
+    if limit is not None and len(out) > limit:
+        out = rng.sample(out, limit)
+    return out
+
+
+def nh_line(rng, struct, name='a'):
+    """a native-histogram sample line for the family `name` (or a near relative of one)"""
+    head = rng.choice([name, name, name + '{x="y"}', name + '{x="y",z=""}', '{"%s"}' % name, '{"%s",x="y"}' % name,
+                       name + '{}', name + ' ', name + '\t', name + '_x', name + '{x="}"}', name + '{x="{"}'])
+    return head + ' ' + struct
+
+
 def repeat_exposures(rng, doc):
     """-> a copy of doc in which some groups are exposed a second time, straight after the first, at a later
     timestamp (what a scrape history looks like).  NOT part of the valid-document generator: the unchanged parser keeps
@@ -501,7 +593,17 @@ def tokens(text):
 
 def mutate_once(rng, text):
     kind = rng.choice(['tok-insert', 'tok-delete', 'tok-dup', 'tok-swap', 'line-swap', 'line-dup', 'line-del',
-                       'chr-insert', 'chr-delete', 'chr-replace', 'line-move', 'tok-foreign'])
+                       'chr-insert', 'chr-delete', 'chr-replace', 'line-move', 'tok-foreign', 'span-edit'])
+    if kind == 'span-edit':
+        # the contents of a [..] {..} or ".." span emptied, or cut back to a prefix of its comma-separated elements
+        spans = [m for m in re.finditer(r'\[[^\]\n]*\]|\{[^}\n]*\}|"[^"\n]*"', text)]
+        if not spans:
+            return text, kind
+        m = rng.choice(spans)
+        inner = m.group(0)[1:-1]
+        parts = inner.split(',')
+        keep = ','.join(parts[:rng.randrange(0, len(parts))])
+        return text[:m.start() + 1] + keep + text[m.end() - 1:], kind
     if kind.startswith('tok'):
         t = tokens(text)
         if not t:
